@@ -207,7 +207,7 @@ class Batch:
                 else:
                     start = last_idx + nworkers
                 tries += 1
-                if tries > 200:
+                if tries > 12:   # a build that crashes again and again has shown enough; each restart costs a warm-up
                     break
 
         threads = [threading.Thread(target=drive, args=(w,)) for w in range(nworkers)]
@@ -525,7 +525,7 @@ def run_check(prop, tier, seed, budget_scale=1.0):
     os.makedirs(REPLAYS, exist_ok=True)
     handled = 0
     for (cls, sig), info in found.items():
-        if handled >= cfg.get("max_reported", 4):
+        if handled >= cfg.get("max_reported", 3):
             break
         plan = info["plan"]
         key = info["key"]
@@ -547,7 +547,7 @@ def run_check(prop, tier, seed, budget_scale=1.0):
             known_hits.append((cls, sig, kf))
             continue
         handled += 1
-        mplan, ntests = minimise(exe, plan, cls, sig, sym, budget_s=cfg.get("minimise_s", 90))
+        mplan, ntests = minimise(exe, plan, cls, sig, sym, budget_s=cfg.get("minimise_s", 60))
         ok = sum(1 for _ in range(2) if has_violation(replay_once(exe, mplan), cls, sig, sym))
         if ok < 2:
             mplan = plan
